@@ -1,5 +1,6 @@
 import TexcraftModel.Model.C19
 import TexcraftModel.Lemmas.C19
+import TexcraftModel.Lemmas.C19Names
 
 /-!
 # C19 — `\input`, `\endinput` and `\read` treat files as lines standing in place
@@ -42,6 +43,32 @@ example :
     WF fs 2 main = true ∧
       run fs 40 main = .ok [.chr 88, .chr 66, .chr 69, .chr 67, .chr 68, .chr 89, .chr 90] := by
   decide +kernel
+
+/-- **Which file.** The file that `\input name` / `\openin n=name` reads is the one TeX reads:
+the written name itself if its last component has an extension, else the name with `.tex`
+appended — one candidate, never the bare name next to `name.tex`, never a replaced or doubled
+extension. (`resolveCode` transcribes `FileLocation::parse` + `determine_full_path` as
+repaired by fixes/C19-c.patch; before the repair `a.tex.tex` read `a.tex`: finding C19-c.)
+Consequently every run sees the same bound file system as the specification. -/
+theorem name_resolution_is_tex (w : Name) : resolveCode w = resolveTeX w :=
+  resolveCode_eq_resolveTeX w
+
+theorem bound_files_are_tex {α : Type} (disk : List (Name × α)) (written : List (Nat × Name)) :
+    bindNames resolveCode disk written = bindNames resolveTeX disk written := by
+  have : resolveCode = resolveTeX := funext resolveCode_eq_resolveTeX
+  rw [this]
+
+/-- `a` ↦ `a.tex`; `a.tex`, `a.tex.tex`, `a.TEX`, `a.` ↦ themselves; `d.d/a` ↦ `d.d/a.tex`;
+with `a`, `a.tex` and `a.tex.tex` all on the disk, `\input a` is bound to `a.tex`. -/
+example :
+    resolveTeX [97] = [97, 46, 116, 101, 120] ∧
+    resolveTeX [97, 46, 116, 101, 120] = [97, 46, 116, 101, 120] ∧
+    resolveCode [97, 46, 116, 101, 120, 46, 116, 101, 120] = [97, 46, 116, 101, 120, 46, 116, 101, 120] ∧
+    resolveCode [97, 46, 84, 69, 88] = [97, 46, 84, 69, 88] ∧
+    resolveCode [97, 46] = [97, 46] ∧
+    resolveCode [100, 46, 100, 47, 97] = [100, 46, 100, 47, 97, 46, 116, 101, 120] ∧
+    bindNames resolveCode [([97], 1), ([97, 46, 116, 101, 120], 2), ([97, 46, 116, 101, 120, 46, 116, 101, 120], 3)]
+      [(0, [97])] = [(0, 2)] := by decide
 
 /-- **The limit (1).** `\input` of an existing file with 100 or more sources below the current
 one is the error `too many input levels`; the state is otherwise untouched. -/
